@@ -39,6 +39,10 @@ def accounts(ctx):
     return [0, 1, H - 2, H - 1, ctx.rng("acct").randrange(2, H - 2), 49, 84, 44]
 
 
+class ContradictoryInputRefused(Exception):
+    pass
+
+
 def build(src, testnet):
     from btc_hd_wallet.paper_wallet import PaperWallet
     if src["kind"] == "mnemonic":
@@ -52,7 +56,10 @@ def build(src, testnet):
     if src["kind"] == "ctor":
         from btc_hd_wallet.bip32 import PrvKeyNode
         node_ = PrvKeyNode.master_key(bytes.fromhex(src["seed"]), not testnet)
-        return PaperWallet(master=node_, testnet=testnet), hd.master(bytes.fromhex(src["seed"])), None, None
+        st_, w_ = attempt(lambda: PaperWallet(master=node_, testnet=testnet))
+        if st_ != "ok":
+            raise ContradictoryInputRefused(str(w_))     # refusing contradictory flags is a legitimate answer: the source is skipped
+        return w_, hd.master(bytes.fromhex(src["seed"])), None, None
     if src["kind"] == "seed":
         w = PaperWallet.from_bip39_seed_hex(src["seed"], testnet)
         return w, hd.master(bytes.fromhex(src["seed"])), None, None
@@ -146,7 +153,10 @@ def wasabi_ok(text, exp):
 
 def chk_vector(si, testnet, account, interval):
     src = SOURCES[si]
-    w, m, mn, pw = build(src, testnet)
+    try:
+        w, m, mn, pw = build(src, testnet)
+    except ContradictoryInputRefused:
+        return []
     viols, data = judge_generate(w, m, mn, pw, testnet, account, interval)
     if data is not None:
         st, js = attempt(w.json, data)
